@@ -30,7 +30,18 @@ fn mk(kind: MKind) -> MatchKind {
     }
 }
 
+std::thread_local! {
+    /// Whether automaton-surface stream operations go through `<&A as Automaton>`
+    /// (set from the scenario's options by `build`; harness state only).
+    static VIA_REF: std::cell::Cell<bool> = const { std::cell::Cell::new(false) };
+}
+
+fn via_ref() -> bool {
+    VIA_REF.with(|v| v.get())
+}
+
 pub fn build(patterns: &[Vec<u8>], o: &BuildOpts) -> Result<Sut, String> {
+    VIA_REF.with(|v| v.set(o.via_ref));
     let start_kind =
         if o.start_both { StartKind::Both } else { StartKind::Unanchored };
     match o.surface {
@@ -158,9 +169,19 @@ impl Sut {
                     }
                 }
             }
-            _ => on_aut!(self, a => match a.try_stream_find_iter(rdr) {
-                Err(e) => Err(e.to_string()),
-                Ok(it) => drive!(it),
+            _ => on_aut!(self, a => {
+                if via_ref() {
+                    let r = &a;
+                    match Automaton::try_stream_find_iter(&r, rdr) {
+                        Err(e) => Err(e.to_string()),
+                        Ok(it) => drive!(it),
+                    }
+                } else {
+                    match a.try_stream_find_iter(rdr) {
+                        Err(e) => Err(e.to_string()),
+                        Ok(it) => drive!(it),
+                    }
+                }
             }),
         }
     }
@@ -173,7 +194,14 @@ impl Sut {
     ) -> io::Result<()> {
         match self {
             Sut::Top(ac) => ac.try_stream_replace_all(rdr, wtr, table),
-            _ => on_aut!(self, a => a.try_stream_replace_all(rdr, wtr, table)),
+            _ => on_aut!(self, a => {
+                if via_ref() {
+                    let r = &a;
+                    Automaton::try_stream_replace_all(&r, rdr, wtr, table)
+                } else {
+                    a.try_stream_replace_all(rdr, wtr, table)
+                }
+            }),
         }
     }
 
@@ -190,7 +218,14 @@ impl Sut {
     {
         match self {
             Sut::Top(ac) => ac.try_stream_replace_all_with(rdr, wtr, f),
-            _ => on_aut!(self, a => a.try_stream_replace_all_with(rdr, wtr, f)),
+            _ => on_aut!(self, a => {
+                if via_ref() {
+                    let r = &a;
+                    Automaton::try_stream_replace_all_with(&r, rdr, wtr, f)
+                } else {
+                    a.try_stream_replace_all_with(rdr, wtr, f)
+                }
+            }),
         }
     }
 
